@@ -189,8 +189,8 @@ type receiver struct {
 	b        *bubble
 }
 
-func newReceiver(b *bubble, c rcfg) *receiver {
-	rn, err := newNode(twinR, ip4(2), c.apply)
+func newReceiver(b *bubble, c rcfg, extra ...nodeOpt) *receiver {
+	rn, err := newNode(twinR, ip4(2), append([]nodeOpt{c.apply}, extra...)...)
 	must(err)
 	r := &receiver{n: b.track(rn), cfg: c, pingRes: make(chan string, 1), b: b}
 	advance(time.Microsecond)
